@@ -16,6 +16,7 @@ import (
 	"os"
 	"path/filepath"
 	"strings"
+	"sync"
 	"sync/atomic"
 	"testing"
 
@@ -68,6 +69,25 @@ func infoText(name string, vs []api.SecretVersion, a api.SecretVersion) string {
 	return fmt.Sprintf("%s%v@%d", name, vs, a)
 }
 
+// holdHook, when set, is told about every value or list a call returned: its rendering at return and a
+// function that renders the same returned object again. A response belongs to the client that
+// received it; the end of every execution checks that none was rewritten afterwards.
+var holdHook func(o op, was string, again func() string)
+
+func hold(o op, was string, again func() string) {
+	if holdHook != nil {
+		holdHook(o, was, again)
+	}
+}
+
+func valText(sv *api.SecretValue) string { return fmt.Sprintf("%d:%q", sv.Version, sv.Value) }
+
+type heldResp struct {
+	o     op
+	was   string
+	again func() string
+}
+
 // apply runs o on the real database.
 func apply(d *db.DB, c db.Caller, o op) result {
 	switch o.Kind {
@@ -85,35 +105,43 @@ func apply(d *db.DB, c db.Caller, o op) result {
 		if err != nil {
 			return result{Class: hx.Classify(err)}
 		}
+		hold(o, valText(sv), func() string { return valText(sv) })
 		return result{Ver: uint32(sv.Version), Value: string(sv.Value)}
 	case "getver":
 		sv, err := d.GetVersion(c, o.Name, api.SecretVersion(o.Ver))
 		if err != nil {
 			return result{Class: hx.Classify(err)}
 		}
+		hold(o, valText(sv), func() string { return valText(sv) })
 		return result{Ver: uint32(sv.Version), Value: string(sv.Value)}
 	case "getcond":
 		sv, err := d.GetConditional(c, o.Name, api.SecretVersion(o.Ver))
 		if err != nil {
 			return result{Class: hx.Classify(err)}
 		}
+		hold(o, valText(sv), func() string { return valText(sv) })
 		return result{Ver: uint32(sv.Version), Value: string(sv.Value)}
 	case "info":
 		in, err := d.Info(c, o.Name)
 		if err != nil {
 			return result{Class: hx.Classify(err)}
 		}
+		hold(o, infoText(in.Name, in.Versions, in.ActiveVersion), func() string { return infoText(in.Name, in.Versions, in.ActiveVersion) })
 		return result{Text: infoText(in.Name, in.Versions, in.ActiveVersion)}
 	case "list":
 		ins, err := d.List(c)
 		if err != nil {
 			return result{Class: hx.Classify(err)}
 		}
-		var sb []string
-		for _, in := range ins {
-			sb = append(sb, infoText(in.Name, in.Versions, in.ActiveVersion))
+		render := func() string {
+			var sb []string
+			for _, in := range ins {
+				sb = append(sb, infoText(in.Name, in.Versions, in.ActiveVersion))
+			}
+			return strings.Join(sb, ";")
 		}
-		return result{Text: strings.Join(sb, ";")}
+		hold(o, render(), render)
+		return result{Text: render()}
 	}
 	panic("bad op " + o.Kind)
 }
@@ -213,6 +241,8 @@ func scenario(pre prestate, progs [][]op, viaHTTP bool) func() *sched.Harness {
 		var dir string
 		var init *model.KV
 		var results [][]porcupine.Operation
+		var held []heldResp
+		var heldMu sync.Mutex
 		var clock atomic.Int64
 		var mux *http.ServeMux
 		return &sched.Harness{
@@ -232,6 +262,12 @@ func scenario(pre prestate, progs [][]op, viaHTTP bool) func() *sched.Harness {
 					}
 				}
 				init = hx.ToModel(d)
+				held = nil
+				holdHook = func(o op, was string, again func() string) {
+					heldMu.Lock()
+					held = append(held, heldResp{o, was, again})
+					heldMu.Unlock()
+				}
 				if viaHTTP {
 					mux = http.NewServeMux()
 					if _, err := server.New(context.Background(), server.Config{DB: d, WhoIs: whoIsAll, Mux: mux}); err != nil {
@@ -259,6 +295,12 @@ func scenario(pre prestate, progs [][]op, viaHTTP bool) func() *sched.Harness {
 			Teardown: func(x *sched.Exec) {},
 			Final: func(x *sched.Exec) error {
 				defer os.RemoveAll(dir)
+				holdHook = nil
+				for _, h := range held {
+					if now := h.again(); now != h.was {
+						return fmt.Errorf("response rewritten after it was returned: %v returned %s; read again at the end of the execution the same response says %s", h.o, h.was, now)
+					}
+				}
 				var ops []porcupine.Operation
 				var sum []string
 				for _, rs := range results {
